@@ -1,6 +1,7 @@
 package props
 
 import (
+	"math"
 	"context"
 	"fmt"
 	"strings"
@@ -80,6 +81,22 @@ func c16Struct(r *h.Rand, sc *gen.Schema, depth int, n *int) *gen.StructT {
 				// a declared default that equals the type's zero value is still a declared default
 				if f.Default != nil && r.Chance(25) {
 					f.Default = zeroOf(f.T)
+				}
+				// negative defaults and the ends of the type's range
+				if f.Default != nil && r.Chance(30) {
+					pick := func(min, max int64) int64 { return []int64{min, max, min + 1, max - 1, -1, -(1 + int64(r.Intn(100)))}[r.Intn(6)] }
+					switch k {
+					case tref.BYTE:
+						f.Default = tref.Byte(int8(pick(math.MinInt8, math.MaxInt8)))
+					case tref.I16:
+						f.Default = tref.Int16(int16(pick(math.MinInt16, math.MaxInt16)))
+					case tref.I32:
+						f.Default = tref.Int32(int32(pick(math.MinInt32, math.MaxInt32)))
+					case tref.I64:
+						f.Default = tref.Int64(pick(math.MinInt64, math.MaxInt64))
+					case tref.DOUBLE:
+						f.Default = tref.Double(-float64(r.Intn(100)) - 0.25)
+					}
 				}
 			}
 		}
